@@ -52,7 +52,8 @@ var targets = []target{
 		"messageField.String", "messageField.UnmarshalText", "NewID", "NewType",
 		"Message.appendText", "Message.AppendData", "Message.AppendComment"}, out: "Fields"},
 	{dir: ".", files: []string{"message.go", "message_fields.go"}, funcs: []string{"writeString", "chunk.WriteTo",
-		"Message.writeMessageField", "Message.writeID", "Message.writeType", "Message.writeRetry", "Message.WriteTo"}, out: "Write"},
+		"Message.writeMessageField", "Message.writeID", "Message.writeType", "Message.writeRetry", "Message.WriteTo",
+			"Message.MarshalText", "Message.String"}, out: "Write"},
 	// the replayers: everything of replay.go but the two constructors' use of time.Now
 	{dir: ".", files: []string{"message.go", "message_fields.go", "replay.go", "server.go", "session.go", "joe.go"},
 		funcs: []string{"must", "ID", "Message.Clone", "ensureID", "queue.each", "messageWithTopics.ID", "findIDInQueue",
@@ -193,8 +194,8 @@ func (t *tr) leanType(ty types.Type, at ast.Node) string {
 		if u.Obj().Pkg() != nil && strings.HasSuffix(u.Obj().Pkg().Path(), "internal/parser") && u.Obj().Name() == "Parser" && u.Obj().Pkg() != t.pkg {
 			return "(ParserI Field π)" // the field source of event.go: a state and what Next / Err answer
 		}
-		if u.Obj().Pkg() != nil && u.Obj().Pkg().Path() == "strings" && u.Obj().Name() == "Builder" {
-			return "Bytes"
+		if isByteSinkType(u) {
+			return "Bytes" // a strings.Builder / bytes.Buffer: the bytes written so far
 		}
 		if u.Obj().Pkg() == t.pkg && u.Obj().Name() == "MessageWriter" {
 			if _, isIface := u.Underlying().(*types.Interface); isIface {
@@ -660,7 +661,7 @@ func (t *tr) expr(e *em, x ast.Expr) string {
 		if !ok {
 			die(t.pos(x), "composite literal of %s", t.info.Types[v].Type)
 		}
-		if n.Obj().Pkg() != nil && n.Obj().Pkg().Path() == "strings" && n.Obj().Name() == "Builder" && len(v.Elts) == 0 {
+		if isByteSinkType(n) && len(v.Elts) == 0 {
 			return "([] : Bytes)"
 		}
 		st, ok := n.Underlying().(*types.Struct)
@@ -1104,6 +1105,28 @@ func (t *tr) argList(e *em, fs *fsig, args []ast.Expr) []string {
 	return out
 }
 
+// isByteSinkType: strings.Builder or bytes.Buffer
+func isByteSinkType(n *types.Named) bool {
+	if n.Obj().Pkg() == nil {
+		return false
+	}
+	return (n.Obj().Pkg().Path() == "strings" && n.Obj().Name() == "Builder") || (n.Obj().Pkg().Path() == "bytes" && n.Obj().Name() == "Buffer")
+}
+
+// isByteSink: &b of such a value, handed to a callee as its io.Writer
+func (t *tr) isByteSink(a ast.Expr) bool {
+	u, ok := a.(*ast.UnaryExpr)
+	if !ok || u.Op != token.AND {
+		return false
+	}
+	if tv, ok := t.info.Types[u.X]; ok {
+		if n, ok := tv.Type.(*types.Named); ok {
+			return isByteSinkType(n)
+		}
+	}
+	return false
+}
+
 func stripAddr(a ast.Expr) ast.Expr {
 	if u, ok := a.(*ast.UnaryExpr); ok && u.Op == token.AND {
 		if _, lit := u.X.(*ast.CompositeLit); !lit {
@@ -1114,6 +1137,9 @@ func stripAddr(a ast.Expr) ast.Expr {
 }
 
 func (t *tr) argExpr(e *em, a ast.Expr, wantOpt bool) string {
+	if t.isByteSink(a) {
+		return "(bufWriter " + t.expr(e, stripAddr(a)) + ")" // a writer that appends, never fails
+	}
 	a = stripAddr(a)
 	if wantOpt {
 		return t.optExpr(e, a, true)
@@ -1221,9 +1247,11 @@ func (t *tr) specialMethod(e *em, v *ast.CallExpr) (string, bool) {
 		}
 		die(t.pos(v), "time.Time.%s", sel.Sel.Name)
 	}
-	if n.Obj().Pkg() != nil && n.Obj().Pkg().Path() == "strings" && n.Obj().Name() == "Builder" {
+	if isByteSinkType(n) {
 		x := t.expr(e, sel.X)
 		switch sel.Sel.Name {
+		case "Bytes":
+			return x, true
 		case "WriteString":
 			t.assignTo(e, sel.X, "("+x+" ++ "+t.expr(e, v.Args[0])+")", false)
 			return "()", true
@@ -1302,6 +1330,9 @@ func (t *tr) specialMethod(e *em, v *ast.CallExpr) (string, bool) {
 
 func (t *tr) hasWriterArg(v *ast.CallExpr) bool {
 	for _, a := range v.Args {
+		if t.isByteSink(a) {
+			return true
+		}
 		if tv, ok := t.info.Types[a]; ok {
 			if n, ok := tv.Type.(*types.Named); ok && n.Obj().Pkg() != nil && n.Obj().Pkg().Path() == "io" && n.Obj().Name() == "Writer" {
 				return true
@@ -1332,9 +1363,14 @@ func (t *tr) genericCall(e *em, callee string, recv ast.Expr, v *ast.CallExpr) s
 		}
 	}
 	args = append(args, t.argList(e, fs, v.Args)...)
+	sinks := map[ast.Expr]bool{}
 	for i, a := range v.Args {
 		if i < len(fs.paramIO) && fs.paramIO[i] {
-			backs = append(backs, back{stripAddr(a), fs.paramMod[i]})
+			x := stripAddr(a)
+			if t.isByteSink(a) {
+				sinks[x] = true
+			}
+			backs = append(backs, back{x, fs.paramMod[i]})
 		}
 	}
 	n := t.fresh("m")
@@ -1364,6 +1400,10 @@ func (t *tr) genericCall(e *em, callee string, recv ast.Expr, v *ast.CallExpr) s
 		return false
 	}
 	for j, b := range backs {
+		if sinks[b.x] {
+			t.assignTo(e, b.x, "("+proj(fs.nres+j)+").st", false) // what the buffer holds now
+			continue
+		}
 		if isPlace(b.x) {
 			t.assignTo(e, b.x, proj(fs.nres+j), false)
 		} else if b.mod {
